@@ -43,12 +43,13 @@ FLOORS = {"forest_checked": 300, "multisource_expected": 40,
           "shared_keymask_merge": 60, "router_load_checked": 250,
           "router_refusal": 30, "readback_checked": 100}
 SHARDS = {"quick": 16, "thorough": 64}
-CLASSES = ["forest", "shared", "conflict", "load", "holes", "refuse", "multi"]
+CLASSES = ["forest", "shared", "conflict", "load", "holes", "refuse", "multi",
+           "full"]
 
 
 def plan(tier):
     n = 600 if tier == "quick" else 30000
-    return [(c, n) for c in CLASSES]
+    return [(c, n if c != "full" else n // 20) for c in CLASSES]
 
 
 # ------------------------------------------------------------ part A: gen
@@ -151,6 +152,10 @@ def gen(cls, idx, rng, tier):
         n = rng.choice([0, 1, 2, 3, 17, 100, rng.randint(0, 60)])
         if cls == "refuse":
             n = rng.choice([1, 5, 900, 1023, 1024])
+        if cls == "full":
+            # a completely free router: the largest table that fits, its
+            # neighbours, and one too many
+            n = rng.choice([1022, 1023, 1023, 1024, 1000])
         ents = []
         for _ in range(n):
             route = sorted(rng.sample(range(24), rng.randint(0, 6)))
@@ -171,8 +176,8 @@ def gen(cls, idx, rng, tier):
             pos += ln
     return dict(kind="load", tables=tables, holes=holes,
                 rtr_fail=cls == "refuse" and rng.random() < .4,
-                buf=rng.choice([64, 256, 255]), via_map=cls == "multi" and
-                rng.random() < .5)
+                buf=rng.choice([64, 256, 255]),
+                via_map=cls in ("multi", "full") and rng.random() < .5)
 
 
 # --------------------------------------------------------- part A: oracle
